@@ -13,6 +13,7 @@ FN = {(PS, 'Forward'): '@_ZNK13GeographicLib18PolarStereographic7ForwardEbddRdS1
       (ALB, 'Forward'): '@_ZNK13GeographicLib15AlbersEqualArea7ForwardEdddRdS1_S1_S1_', (ALB, 'Reverse'): '@_ZNK13GeographicLib15AlbersEqualArea7ReverseEdddRdS1_S1_S1_', (ALB, 'SetScale'): '@_ZN13GeographicLib15AlbersEqualArea8SetScaleEdd'}
 SINCOSD = '@_ZN13GeographicLib4Math7sincosdIdEEvT_RS2_S3_'
 ASSUMPTIONS = [
+    'Albers cylindrical-limit obligation: _n0 = 0 exactly, object invariant _k2 = _k0^2, _k0 > 0, _nrho0 > 0; txif/tphif/atan2 opaque; only the longitude of Reverse(Forward) is decided there',
     '[REAL] obligations: exact real meaning of the floating-point operations; rounding/overflow/NaN outside the claim',
     'the projection objects are arbitrary: every member is a free real symbol (so the obligations hold for every ellipsoid, parallel and scale a constructor can produce)',
     'Math::tand, taupf, tauf, sincosd, AngNormalize, AngDiff and the Forward called inside SetScale are opaque; the divided-difference Init bodies, the Newton inversions and the 10 nm round trip are outside the claim',
@@ -116,6 +117,60 @@ def ob_ps_forward(ctx):
     else: r['verdict'] = 'proved'
     return r
 
+ANGNORM = '@_ZN13GeographicLib4Math12AngNormalizeIdEET_S2_'; ATAND = '@_ZN13GeographicLib4Math5atandIdEET_S2_'; TXIF = '@_ZNK13GeographicLib15AlbersEqualArea4txifEd'
+class _Arg(Exception):
+    def __init__(s, arg, cond): s.arg = arg; s.cond = cond
+
+def ob_albers_cyl_lon(ctx):
+    """cylindrical limit (_n0 = 0) of AlbersEqualArea: Forward puts x = nrho0 k2 lam / k0; Reverse recovers that lam (needs _k2 = _k0^2):
+    the longitude survives the round trip"""
+    m = H.ir_module(ctx, W); o = H.offsets(m, ALB)
+    lon0, lat, lon, y = [z3.Real(n) for n in ('lon0', 'lat', 'lon', 'y')]; dlon = z3.Real('dlon')
+    k0, k2, nrho0 = z3.Real('Alb_%d' % o['_k0']), z3.Real('Alb_%d' % o['_k2']), z3.Real('Alb_%d' % o['_nrho0'])
+    inv = [k0 > 0, k2 == k0 * k0, nrho0 > 0]
+    uf = lambda name: (lambda ex, a, mem: ex.UF(name, len(a) - 1)(*[x for x in a[1:]]) if len(a) > 1 else z3.Real(name))
+    q = 0; ss = 0.0; bad = None; unk = []
+    for sign in (1, -1):
+        fixed = {o['_sign']: rsym.RV(sign), o['_n0']: rsym.RV(0)}
+        # Forward: x as a function of the longitude difference
+        def sc(ex, a, mem): ex.store(mem, a[1], None, z3.Real('sphi')); ex.store(mem, a[2], None, z3.Real('cphi')); return None
+        ex = rsym.Exec(m, opaque={SINCOSD: sc, '@_ZN13GeographicLib4Math7AngDiffIdEET_S2_S2_RS2_': lambda ex, a, mem: dlon, TXIF: lambda ex, a, mem: ex.UF('txif', 1)(a[1])},
+                       libm={'atan2': lambda ex, a, mem: ex.UF('atan2', 2)(a[0], a[1])}, assume=inv + [lat > -90, lat < 90, z3.Real('cphi') > 0], path_cap=256)
+        paths = ex.run_all(FN[(ALB, 'Forward')], lambda ex, mem: [sym_obj(ex, mem, m, ALB, dict(fixed))[0], lon0, lat, lon, ex.new_obj(mem, 'o'), rsym.Ptr('o', 8), rsym.Ptr('o', 16), rsym.Ptr('o', 24)])
+        deg = None
+        for p in paths:
+            xf = p.mem['o'][0]
+            # x = nrho0 k2 lam / k0 with lam = dlon * degree : linear in dlon through the origin with slope nrho0 k2 degree / k0
+            d2 = z3.Real('dlon2')
+            st, model, dt = rsym.prove(z3.substitute(xf, (dlon, d2)) * dlon == xf * d2, list(p.cond) + [z3.substitute(c, (dlon, d2)) for c in p.cond], timeout_ms=30000); q += 1; ss += dt
+            if st == 'sat' and bad is None: bad = {'kind': 'albcyl', 'claim': 'Forward (n0 = 0): x is proportional to the longitude difference', 'sign': sign}
+            elif st == 'unknown': unk.append('fwd-linear')
+            slope = z3.substitute(xf, (dlon, rsym.RV(1)))
+            # Reverse with that x: the argument of the final AngNormalize must be dlon + AngNormalize(lon0)
+            def an(ex2, a, mem):
+                n = mem.setdefault('!an', []); n.append(a[0])
+                if len(n) == 1: return z3.Real('an_lon0')
+                raise _Arg(a[0], list(ex2.cur.cond))
+            xr = slope * dlon
+            ex2 = rsym.Exec(m, opaque={ANGNORM: an, ATAND: lambda e, a, mem: z3.Real('atand'), TXIF: lambda e, a, mem: e.UF('txif', 1)(a[1])},
+                            libm={'atan2': lambda e, a, mem: e.UF('atan2', 2)(a[0], a[1])}, assume=inv + list(p.cond), path_cap=256)
+            got = []
+            def mk2(e, mem): return [sym_obj(e, mem, m, ALB, dict(fixed))[0], lon0, xr, y, e.new_obj(mem, 'o'), rsym.Ptr('o', 8), rsym.Ptr('o', 16), rsym.Ptr('o', 24)]
+            stack_guard = 0
+            try:
+                ex2.run_all(FN[(ALB, 'Reverse')], mk2)
+                unk.append('reverse did not reach the final AngNormalize')
+            except _Arg as g:
+                st, model, dt = rsym.prove(g.arg == dlon + z3.Real('an_lon0'), g.cond, timeout_ms=60000); q += 1; ss += dt
+                if st == 'sat' and bad is None: bad = {'kind': 'albcyl', 'claim': 'Reverse(Forward) returns the longitude difference it was given (cylindrical limit)', 'sign': sign}
+                elif st == 'unknown': unk.append('roundtrip')
+            break    # the first feasible Forward path suffices for the longitude (the others differ in latitude-dependent branches only)
+    r = {'queries': q, 'nontrivial': q, 'solver_s': round(ss, 3), 'functions': ['GeographicLib::AlbersEqualArea::Forward', 'GeographicLib::AlbersEqualArea::Reverse'], 'bounds': {'_n0': 0, '_sign': '+1 and -1', 'invariant': '_k2 = _k0^2, _k0 > 0, _nrho0 > 0'}}
+    if bad: r.update({'verdict': 'violated', 'detail': 'AlbersEqualArea with _n0 = 0: %s refuted' % bad['claim'], 'cex': bad})
+    elif unk: r.update({'verdict': 'inconclusive', 'detail': 'unknown: %r' % unk})
+    else: r['verdict'] = 'proved'
+    return r
+
 def obligations(ctx):
     return [
         Ob('Q1.PolarStereographic.Forward', ob_ps_forward, '[REAL]', 'E2 rsym+z3', 'PolarStereographic::Forward: x = rho sin(lon), y = -+rho cos(lon) with rho (hypot(1,taup) + taup) = 2 k0 a / c on both sign branches (taup = taupf(tand(+-lat))), gamma = AngNormalize(+-lon)', timeout=600),
@@ -123,6 +178,7 @@ def obligations(ctx):
         Ob('Q3.Albers.latitude-argument', lambda ctx: ob_lat_argument(ctx, ALB), '[REAL]', 'E2 rsym+z3', 'AlbersEqualArea::Forward evaluates its latitude functions at _sign*lat, the reflected latitude Reverse returns (both hemispheres of cones)', timeout=300),
         Ob('Q2.PolarStereographic.SetScale', lambda ctx: ob_setscale(ctx, PS), '[REAL]', 'E2 rsym+z3', 'PolarStereographic::SetScale sets _k0 = k / k(lat at unit scale) and nothing else', timeout=300),
         Ob('Q2.LCC.SetScale', lambda ctx: ob_setscale(ctx, LCC), '[REAL]', 'E2 rsym+z3', 'LambertConformalConic::SetScale multiplies every length-scale member (_scale, _k0, _nrho0, _drhomax) by k/kold and changes nothing else', timeout=300),
+        Ob('Q4.Albers.cylindrical-longitude', ob_albers_cyl_lon, '[REAL]', 'E2 rsym+z3', 'AlbersEqualArea in the cylindrical limit (_n0 = 0): Forward puts x proportional to the longitude difference and Reverse recovers exactly that difference', timeout=600),
         Ob('Q2.Albers.SetScale', lambda ctx: ob_setscale(ctx, ALB), '[REAL]', 'E2 rsym+z3', 'AlbersEqualArea::SetScale multiplies _k0 by k/kold, keeps _k2 = _k0^2 and changes nothing else', timeout=300),
     ]
 
@@ -139,6 +195,11 @@ def replay(rp):
         ratio = out[5] / out[4]; rx = out[2] / out[0]
         bad = abs(rx - ratio) > 1e-6 * ratio
         return bad, 'LambertConformalConic(30, 50).SetScale(35, 2): the returned scale at (40, 10) changes by the factor %.6f but the easting x by the factor %.6f (x: %.3f -> %.3f)' % (ratio, rx, out[0], out[2])
+    if cex.get('kind') == 'albcyl':
+        f = lib.vf_albers_cyl; f.restype = None; f.argtypes = [ctypes.c_double] * 3 + [ctypes.c_void_p]
+        out = (ctypes.c_double * 5)(); f(2.0, 20.0, 30.0, out)
+        bad = abs(out[1] - 30.0) > 1e-6 or abs(out[0] - 20.0) > 1e-6
+        return bad, 'AlbersEqualArea(standard parallel 0, k0 = 2; _n0 = %g): Reverse(Forward(lat=20, lon=30)) = (lat=%.9f, lon=%.9f); Forward gave (x, y) = (%.3f, %.3f)' % (out[4], out[0], out[1], out[2], out[3])
     return None, 'no concrete replay for %r' % cex
 
 MANIFEST = {
